@@ -4,9 +4,11 @@ CONSTANTS
   MaxVotes = 10000
   MaxParts = 1601
   Weak_BitArrayOpsAssumeEqualSize = FALSE
+  Weak_LastCommitNilDeref = FALSE
+  Weak_SetRoundRecreatesRound = FALSE
   MaxMsgs = 3
 INIT GInit
 NEXT GNext
-INVARIANTS NeverCrashes StoredSizesBounded
+INVARIANTS NeverCrashes NeverHalts StoredSizesBounded
 VIEW GView
 CHECK_DEADLOCK FALSE
